@@ -112,9 +112,13 @@ fn gen_user(rng: &mut Rng) -> UserKind {
                 UserKind::DeadBands(rng.range(1, 3) as u8)
             } else {
                 let blocks = rng.range(1, 4) as u8;
-                match rng.below(4) {
+                match rng.below(9) {
                     0 => UserKind::Directory(rng.below(5) as u8),
                     1 => UserKind::FileInfo,
+                    2 => UserKind::FileAuth,
+                    3 => UserKind::FileOpen(rng.bool()),
+                    4 => UserKind::FileWriteBlock(rng.below(4) as u8, rng.range(1, 200) as u8, rng.bool()),
+                    5 => UserKind::FileClose,
                     _ => UserKind::FileRead {
                         blocks,
                         block_size: rng.range(1, 20) as u8,
@@ -209,11 +213,30 @@ impl Scenario for OutcomeScenario {
             let other = if assoc == 0 { 1025 } else { 1024 };
             // replies for the steps of the next request(s)
             let nrep = *rng.pick(&[0usize, 1, 1, 2, 2, 3, 4]);
+            let burst = *rng.pick(&[1usize, 1, 1, 2, 3]);
+            let users: Vec<UserKind> = (0..burst).map(|_| gen_user(rng)).collect();
+            let file_request = matches!(
+                users[0],
+                UserKind::FileRead { .. }
+                    | UserKind::Directory(_)
+                    | UserKind::FileInfo
+                    | UserKind::FileAuth
+                    | UserKind::FileOpen(_)
+                    | UserKind::FileWriteBlock(..)
+                    | UserKind::FileClose
+            );
             let mut replies = Vec::new();
             for k in 0..nrep {
                 // a deviation in the second step only needs a faithful first step
                 if k + 1 < nrep && rng.chance(1, 2) {
                     replies.push(Reply::Faithful);
+                } else if file_request && rng.chance(1, 3) {
+                    // what only a file request can be answered with
+                    replies.push(if rng.chance(2, 3) {
+                        Reply::FileStatus(rng.range(1, 20) as u8)
+                    } else {
+                        Reply::FileBlock(*rng.pick(&[-1i8, 1, 2]))
+                    });
                 } else {
                     replies.push(gen_reply(rng, other));
                 }
@@ -227,12 +250,8 @@ impl Scenario for OutcomeScenario {
                     on: rng.chance(1, 3),
                 });
             }
-            let burst = *rng.pick(&[1usize, 1, 1, 2, 3]);
-            for _ in 0..burst {
-                script.push(MOp::User {
-                    assoc,
-                    kind: gen_user(rng),
-                });
+            for kind in users {
+                script.push(MOp::User { assoc, kind });
             }
             // things that happen while the request waits
             let during = *rng.pick(&[0usize, 0, 1, 2, 4]);
@@ -371,6 +390,10 @@ fn first_func(kind: &UserKind) -> Option<u8> {
         UserKind::DeadBands(_) => 2,
         UserKind::FileRead { .. } | UserKind::Directory(_) => 25,
         UserKind::FileInfo => 28,
+        UserKind::FileAuth => 29,
+        UserKind::FileOpen(_) => 25,
+        UserKind::FileWriteBlock(..) => 2,
+        UserKind::FileClose => 26,
     })
 }
 
@@ -431,6 +454,20 @@ fn faithful_echo(a: &Arrival, assoc: u16, step: &Step) -> bool {
         && ctrl.seq == step.seq
         && a.bytes[3] & 0x07 == 0
         && a.bytes[4..] == step.bytes[2..]
+}
+
+/// for the single-step file requests: does the response carry the object that means success (right variation, status SUCCESS /
+/// a non-zero authentication key)?
+fn file_answer_ok(kind: &UserKind, a: &Arrival) -> bool {
+    let b = &a.bytes;
+    let free_format = |var: u8, min_len: usize| b.len() >= min_len && b[4] == 70 && b[5] == var && b[6] == 0x5B && b[7] == 1;
+    match kind {
+        UserKind::FileAuth => free_format(2, 22) && b[18..22] != [0, 0, 0, 0],
+        UserKind::FileOpen(_) | UserKind::FileClose => free_format(4, 23) && b[22] == 0,
+        UserKind::FileWriteBlock(..) => free_format(6, 19) && b[18] == 0,
+        UserKind::FileInfo => free_format(7, 12),
+        _ => true,
+    }
 }
 
 /// weakest form of an acceptable answer to a non-command step
@@ -1050,7 +1087,7 @@ pub fn analyse(
                         && if is_command {
                             faithful_echo(a, task.assoc, s)
                         } else {
-                            plausible_answer(a, task.assoc, s)
+                            plausible_answer(a, task.assoc, s) && file_answer_ok(&user.kind, a)
                         }
                 });
                 // READ series: the first fragment need not be final
@@ -1366,6 +1403,10 @@ fn kind_name(k: &UserKind) -> &'static str {
         UserKind::FileRead { .. } => "file-read",
         UserKind::Directory(_) => "directory",
         UserKind::FileInfo => "file-info",
+        UserKind::FileAuth => "file-authenticate",
+        UserKind::FileOpen(_) => "file-open",
+        UserKind::FileWriteBlock(..) => "file-write-block",
+        UserKind::FileClose => "file-close",
     }
 }
 
